@@ -28,6 +28,7 @@ def run (rest : String) : String :=
   | ["xtermref", i, v] => if Spec.Color.xtermRGB (toNat! i) == toNat! v then "ok" else "bad"
   | "sweep" :: _ => "skip"
   | "rsweep" :: _ => "skip"
+  | "dsweep" :: _ => "skip"
   | _ => "bad-line"
 
 end Driver.Color
